@@ -280,6 +280,18 @@ pub fn c14(o: &Opts) -> Outcome {
             }
         }
     }
+    // many records and many workers on the mapped writer: every row in its own slot, whatever the hand-out order
+    {
+        let n = if o.thorough { 12000 } else { 4000 };
+        let recs: Vec<Vec<u8>> = (0..n).map(|i| { let l = 3 + (i * 7 % 23) as usize; (0..l).map(|j| b"ACGT"[(i + j * j + i / 5) % 4]).collect() }).collect();
+        for threads in [8usize, 16] {
+            cases += 1;
+            if let Some(mut w) = c14_one(&recs, 2, " ", true, threads) {
+                for kv in w.iter_mut() { if kv.0 == "records" { kv.1 = format!("<{} short records, record i = ACGT[(i + j*j + i/5) % 4] for j < 3 + i*7%23>", n); } }
+                return Outcome { cases, witness: Some(w) };
+            }
+        }
+    }
     // records without bases between, before and after ordinary ones: each still owns one (all-zero) row slot
     for recs in [vec![b"ACGTACGT".to_vec(), vec![], b"GGCATTA".to_vec()], vec![vec![], b"ACGGT".to_vec(), vec![], vec![]], vec![vec![], vec![]]] {
         for header in [false, true] {
